@@ -23,6 +23,7 @@ RULE = (
     "metamorphic: linearity, product rule, commuting mixed partials. non-trivial = some term has the "
     "variable with exponent >= 2 and another term is free of it."
 )
+LEVEL_TEXT += (" Positional variables are also given as numpy integers.")
 ASSUMPTIONS = [
     "dyadic coefficients: exponent*coefficient is exact in float arithmetic",
     "D is the number of names of the input object as constructed (default options)",
